@@ -117,7 +117,7 @@ func MakeCORSMiddlewareWithResolver(resolveRules CORSRulesResolver, next http.Ha
 
 		requestedMethod := r.Method
 		if isPreflightRequest(r) {
-			requestedMethod = strings.TrimSpace(strings.ToUpper(r.Header.Get(accessControlRequestMethodHeader)))
+			requestedMethod = strings.TrimSpace(r.Header.Get(accessControlRequestMethodHeader))
 		}
 
 		requestedHeaders := parseHeaderList(r.Header.Get(accessControlRequestHeadersHeader))
@@ -195,7 +195,8 @@ func matchOrigin(allowedOrigins []string, origin string) (string, bool) {
 }
 
 func matchMethod(allowedMethods []string, method string) bool {
-	normalizedMethod := strings.ToUpper(strings.TrimSpace(method))
+	// HTTP methods are case-sensitive: "get" is not the GET a rule allows.
+	normalizedMethod := strings.TrimSpace(method)
 	for _, allowedMethod := range allowedMethods {
 		if allowedMethod == normalizedMethod {
 			return true
